@@ -46,7 +46,7 @@ def build(ctx, name="h_pipe"):
             raise vlib.BuildError("compiling %s failed:\n%s" % (s, (o + e)[-3000:]))
     exe = os.path.join(ctx.bdir, name)
     cmd = ["g++"] + [f for f in fl if f.startswith("-fsanitize") or f == "-g"] + objs + \
-          ["-o", exe, "-Wl,--wrap=channel_write_unmap,--wrap=channel_abort_write,--wrap=channel_write_map,--wrap=channel_accept_writes,--wrap=channel_read_map,--wrap=channel_read_unmap", "-lm", "-ldl", "-pthread"]
+          ["-o", exe, "-Wl,--wrap=channel_write_unmap,--wrap=channel_abort_write,--wrap=channel_write_map,--wrap=channel_accept_writes,--wrap=channel_read_map,--wrap=channel_read_unmap,--wrap=video_sink_start", "-lm", "-ldl", "-pthread"]
     rc, o, e = vlib.sh(cmd, timeout=600)
     if rc != 0:
         raise vlib.BuildError("link failed:\n" + (o + e)[-3000:])
@@ -851,7 +851,21 @@ def to_events(prog, lines):
             continue
         if w[0] == "A":
             if w[1] in ("configure", "start") and w[2] == "call" and alive and ev.scope is None:
-                ev.scope = "acquire_%s called while a worker thread is alive" % w[1]
+                # start while running is inside the model when the HAL refuses the first storage start and nothing else is started
+                ok_refusal = False
+                if w[1] == "start":
+                    j = i + 1
+                    seen_ref = False
+                    clean = True
+                    while j < len(lines) and not lines[j].startswith("A start ->"):
+                        if lines[j].startswith("H ") and "start refused" in lines[j]:
+                            seen_ref = True
+                        if lines[j].startswith("D ") and " start " in lines[j] + " ":
+                            clean = False
+                        j += 1
+                    ok_refusal = seen_ref and clean
+                if not ok_refusal:
+                    ev.scope = "acquire_%s called while a worker thread is alive" % w[1]
             if w[1] == "configure" and w[2] == "call":
                 # the configuration this call applies: the cfg lines since the previous configure
                 while prog_pos < len(prog) and not prog[prog_pos].startswith("configure"):
@@ -884,6 +898,10 @@ def to_events(prog, lines):
                 emit("G %s%s" % (w[1], "call" if w[2] == "call" else "ret"), i)
             elif w[1] == "state":
                 emit("G state %s" % {"AwaitingConfiguration": "await", "Armed": "armed", "Running": "running"}.get(w[3], "await"), i)
+            continue
+        if w[0] == "H":
+            if "start refused" in l:
+                emit("G startrefused", i)
             continue
         if w[0] == "T":
             t = int(w[1])
